@@ -114,11 +114,13 @@ where
         loop {
             // accept the next incoming connection
             let (stream, addr) = select! {
-                accepted = listener.accept() => accepted?,
+                // check the stop signal first, a connection that arrives after it is never accepted
+                biased;
                 _ = stop.cancelled() => {
                     info!("stopping listener");
                     break;
                 },
+                accepted = listener.accept() => accepted?,
             };
             self.handle(stream, addr).await;
         }
